@@ -145,7 +145,42 @@ func c04Targets() []c04Target {
 	}
 	add("time/protoTime", pt, T(time.Time{}))
 	add("slices/protoArrays", pa, T(tSlices{}))
+	// values and keys wider than any fixed-size scratch or zero block a decoder may keep (64 KiB and
+	// 1120 bytes), in every container
+	wv, wk := wideStruct(8192), wideStruct(140)
+	sf := func(n string, t reflect.Type, tag string) reflect.StructField {
+		return reflect.StructField{Name: n, Type: t, Tag: reflect.StructTag(tag)}
+	}
+	wide := reflect.StructOf([]reflect.StructField{
+		sf("M", reflect.MapOf(T(""), wv), `plenc:"1"`), sf("K", reflect.MapOf(wk, T(int32(0))), `plenc:"2"`), sf("S", reflect.SliceOf(wv), `plenc:"3"`),
+		sf("MP", reflect.MapOf(T(""), wv), `plenc:"4,proto"`), sf("P", reflect.PointerTo(wv), `plenc:"5"`), sf("KP", reflect.MapOf(wk, wv), `plenc:"6,proto"`)})
+	add("wide", def, wide)
+	add("map[string]wide", def, reflect.MapOf(T(""), wv))
 	return ts
+}
+
+func wideStruct(n int) reflect.Type {
+	fs := make([]reflect.StructField, n)
+	for i := range fs {
+		fs[i] = reflect.StructField{Name: fmt.Sprintf("W%d", i), Type: reflect.TypeOf(int64(0)), Tag: reflect.StructTag(fmt.Sprintf(`plenc:"%d"`, i+1))}
+	}
+	return reflect.StructOf(fs)
+}
+
+// c04Crafted are well-formed container encodings no encoder produces: map entries with a key and no
+// value, a value and no key, neither; for fields 1-6 in the counted and the repeated form and for
+// a top-level map. They join every target's valid encodings as material for prefixes and mutants.
+func c04Crafted() [][]byte {
+	entries := [][]byte{{0x0a, 0x01, 'k'}, {0x08, 0x02}, {}, {0x12, 0x00}, {0x10, 0x03}, {0x0a, 0x01, 'k', 0x0a, 0x01, 'j'}}
+	var out [][]byte
+	for _, e := range entries {
+		out = append(out, append([]byte{0x01, byte(len(e))}, e...), append([]byte{0x02, byte(len(e))}, append(e, append([]byte{byte(len(e))}, e...)...)...))
+		for f := byte(1); f <= 6; f++ {
+			out = append(out, append([]byte{f<<3 | 3, 0x01, byte(len(e))}, e...))
+			out = append(out, append([]byte{f<<3 | 2, byte(len(e))}, e...))
+		}
+	}
+	return out
 }
 
 var c04Alphabet = []byte{0x00, 0x01, 0x02, 0x03, 0x04, 0x05, 0x08, 0x09, 0x0a, 0x0b, 0x0d, 0x10, 0x12, 0x13, 0x15, 0x18, 0x1a, 0x1b, 0x7f, 0x80, 0x81, 0xff, 0xfe, 0xc0}
@@ -328,6 +363,7 @@ func c04Setup(c *core.Ctx) {
 		if len(vs) == 0 {
 			vs = append(vs, []byte{0x08, 0x01})
 		}
+		vs = append(vs, c04Crafted()...)
 		st.valid = append(st.valid, vs)
 	}
 	st.wd = &mon.Watchdog{Limit: 4 * time.Second}
@@ -661,7 +697,7 @@ func c04Case(c *core.Ctx, idx int) {
 			if len(v) > 400 {
 				continue
 			}
-			for cut := 0; cut < len(v); cut++ {
+			for cut := 0; cut <= len(v); cut++ {
 				n++
 				if !st.tryInput(c, ti, append([]byte(nil), v[:cut]...), false) {
 					return
